@@ -97,7 +97,7 @@ def check(chk, repo):
         p, q = final.p, u.q
         base, conds = strip_override(u.value)
         want = ("cmp", "!=", *sorted([final.field(p, "label"), final.field(q, "label")], key=repr))
-        ok = conds == [want]
+        ok = conds == [want] or (conds == [] and info.get("skip_conditions") == [want])
         rep.ev("FORCE-override", u.event, ok,
                "" if ok else "in the final clustering the candidate of a neighbour with a different true label must be "
                f"replaced by -FLOAT_MAX, exactly under label(p) != label(q); found override condition(s) "
